@@ -118,6 +118,30 @@ PROPS = {
                    "Correspondence on every field x record type x version cell with valid/invalid values, multiplicities 0-3 and random defect mixes; independent Go oracle with its own copy of the table",
         level_note=COMMON_NOTE,
     ),
+    "C08": dict(
+        title="Error-policy coherence: ignore, warn and fail tell one story",
+        lean_modules=["Gowarc.Props.C08"],
+        n_quick=1500, n_thorough=20000,
+        required_theorems=["C08_ignore_unmarshal", "C08_ignore_build", "C08_fail_clean_unmarshal", "C08_fail_clean_build",
+                           "C08_fail_iff_warn_unmarshal", "C08_fail_iff_warn_build", "C08_sites", "C08_switch_shapes", "C08_parser_sim"],
+        model_assumptions=["axis-by-axis monotonicity with the other axes at arbitrary levels is not proved; it is compared exhaustively over all 81 combinations on every generated input", "see level_note"],
+        design_ref="DESIGN.md section 5, C08",
+        level_text="Kernel-checked for every input, reader fault, option setting and codec verdict: no finding unless some axis is at warn (so none under ignore, none under fail); fail returns an error iff warn returns an error or records a finding "
+                   "(lock-step simulation of the whole Unmarshal and Build models, incl. the header parser and warc-fields blocks); the regenerated table of all policy sites of the Go code with the shape of every switch. "
+                   "Correspondence: each input under the three uniform levels and all 81 combinations, the four relations evaluated on the implementation",
+        level_note=COMMON_NOTE,
+    ),
+    "C07": dict(
+        title="Validation observes, it does not destroy what was archived",
+        lean_modules=["Gowarc.Props.C07"],
+        n_quick=1500, n_thorough=20000,
+        required_theorems=["C07_validate_keeps_header", "C07_observe", "C07_policy_independent", "C07_block_complete"],
+        model_assumptions=["policy-independence of the FIELDS returned by the header parser is compared on generated inputs, not proved", "see level_note"],
+        design_ref="DESIGN.md section 5, C07",
+        level_text="Kernel-checked: header validation never alters a field under any policy; with the repair options off a record returned under ANY policy setting carries exactly the parsed fields and exactly the block framed by Content-Length "
+                   "(complete, never empty or shortened); protocol header ++ payload = content. Correspondence: every input parsed under all 81 policy combinations with repairs off, headers and drained blocks compared across policies on the implementation",
+        level_note=COMMON_NOTE,
+    ),
 }
 
 
